@@ -183,7 +183,9 @@ func VerifRetry_Sessionless() {
 		return refSessionless(0x00, m)
 	}
 	d.stray = func(dNetFn, dCmd byte) []byte {
-		return refSessionless(0x00, refBuildMsg(0x81, (netFn|1)^dNetFn, 0, 0x20, 1, lun, cmdNo^dCmd, []byte{0x00}))
+		// long enough to be a complete group-extension or OEM response as well (body code /
+		// enterprise number after the completion code)
+		return refSessionless(0x00, refBuildMsg(0x81, (netFn|1)^dNetFn, 0, 0x20, 1, lun, cmdNo^dCmd, append([]byte{0x00}, vBytes(4)...)))
 	}
 	d.corrupt = func(v []byte) []byte {
 		x := vByte()
@@ -272,5 +274,98 @@ func VerifRetry_Session() {
 	}
 	vAssert(vs.sess.AuthenticatedSequenceNumbers.Inbound == s0+uint32(len(vs.ft.sent)), "c09-counter-advanced-by-transmissions")
 	d.vCheckMetrics(name, err, len(vs.ft.sent))
+	vReached("end")
+}
+
+// C09 (history across Close): Close with any outcome (accepted, refused with a completion
+// code, reply lost) followed by another command on the same session value - the BMC may
+// well still hold the session when Close was refused or its reply lost. The sequence
+// numbers keep counting: datagram i of the history carries s0+i.
+func VerifC09_CloseThenCommand() {
+	auth, integ := vSuite()
+	vs := vNewSession(auth, integ)
+	s0 := vs.sess.AuthenticatedSequenceNumbers.Inbound
+	vAssume(s0 < 0xffffffff-8)
+	closeOutcome := vChoice(3)
+	cc := vByte()
+	vAssume(cc != 0x00)
+	vAssume(cc != 0xC0)
+	vAssume(cc != 0xC3)
+	n := 0
+	vs.ft.reply = func(attempt int, req []byte) ([]byte, error) {
+		n++
+		cmdNo, code := byte(0x3C), byte(0x00)
+		if n == 1 {
+			switch closeOutcome {
+			case 1:
+				code = cc
+			case 2:
+				return nil, vErrLost
+			}
+		} else {
+			cmdNo = 0x01
+		}
+		m := refBuildMsg(0x81, 0x07, 0, 0x20, 1, 0, cmdNo, []byte{code})
+		return refSessionPacket(vs.sess.LocalID, uint32(n), integ, vs.k1, vs.k2, vBytes(16), m), nil
+	}
+	r0 := vRandCalls()
+	errClose := vs.sess.Close(context.Background())
+	if closeOutcome == 0 {
+		vAssert(errClose == nil, "c09-accepted-close-succeeds")
+	} else {
+		vAssert(errClose != nil, "c09-refused-or-lost-close-is-an-error")
+	}
+	_, err := vs.sess.SendCommand(context.Background(), &vSynthCmd{op: ipmi.OperationGetDeviceIDReq})
+	vAssert(err == nil, "c09-command-after-close-attempt-completes")
+	vAssert(len(vs.ft.sent) == 2, "c09-one-datagram-per-call")
+	for i, dg := range vs.ft.sent {
+		vCheckSessionDatagram(vs, dg, s0+uint32(i)+1, vRandBytes(r0+i+1))
+	}
+	vAssert(vs.sess.AuthenticatedSequenceNumbers.Inbound == s0+uint32(len(vs.ft.sent)), "c09-counter-advanced-by-transmissions")
+	vReached("end")
+}
+
+// C10 (handshake exchanges): the first answer to each of the three handshake requests may be
+// a stray session-less IPMI message (the late reply to an earlier command) or undecodable
+// bytes; the library re-sends the same setup payload and the handshake completes with the
+// BMC's proper answers.
+func VerifC10_HandshakeStray() {
+	ft := &vFakeTransport{}
+	s := vNewSessionless(ft)
+	password := vBytes(20)
+	bmc := &refBMC{password: password, sidC: vU32(), rC: vBytes(16), guid: vBytes(16), useProposal: true}
+	strayAt := [3]int{vChoice(3), vChoice(3), vChoice(3)} // per exchange: 0 none, 1 stray message, 2 garbage
+	step, tries := 0, 0
+	var first []byte
+	ft.reply = func(attempt int, req []byte) ([]byte, error) {
+		tries++
+		if tries == 1 {
+			first = req
+			if step < 3 && strayAt[step] == 1 {
+				return refSessionless(0x00, refBuildMsg(0x81, 0x07, 0, 0x20, 1, 0, 0x38, []byte{0x00, 0x01, 0x80, 0x14, 0x02, 0, 0, 0, 0})), nil
+			}
+			if step < 3 && strayAt[step] == 2 {
+				return []byte{0x06, 0x00, 0xff, 0x07, 0x06, 0x11}, nil
+			}
+		} else {
+			vAssert(refBytesEq(req, first), "c10-handshake-retransmission-is-the-same-payload")
+		}
+		r := bmc.handle(req)
+		vAssert(r != nil && bmc.wellFormed, "c10-handshake-payload-well-formed")
+		step++
+		tries = 0
+		return r, nil
+	}
+	sess, err := s.NewV2Session(context.Background(), &V2SessionOpts{
+		SessionOpts:  SessionOpts{Password: password, MaxPrivilegeLevel: ipmi.PrivilegeLevelUser},
+		CipherSuites: []ipmi.CipherSuite{ipmi.CipherSuite3}})
+	vAssert(err == nil && sess != nil, "c10-handshake-completes-after-stray-or-garbage-replies")
+	want := 3
+	for _, k := range strayAt {
+		if k != 0 {
+			want++
+		}
+	}
+	vAssert(len(ft.sent) == want, "c10-handshake-one-retransmission-per-unusable-reply")
 	vReached("end")
 }
